@@ -140,6 +140,19 @@ template <class A> static Verdict incomplete_one(unsigned present, int state = 0
   if (!(present & 8)) m.reallocarray = nullptr;
   if (!(present & 16)) m.free = nullptr;
   const int WANT = URI_ERROR_MEMORY_MANAGER_INCOMPLETE;
+  {
+    // the very same manager object is used once while it is still complete, and loses its members afterwards in place
+    UriMemoryManager whole = L.mm;
+    UriMemoryManager lost = m;
+    m = whole;
+    typename A::Uri first;
+    const Ch *ep0;
+    std::basic_string<Ch> t0 = widen<Ch>("s://h/p");
+    VF_REQUIRE(A::ParseSingleUriExMm(&first, t0.data(), t0.data() + t0.size(), &ep0, &m) == 0, "setup: parse with the still complete manager failed");
+    VF_REQUIRE(A::FreeUriMembersMm(&first, &m) == 0, "setup: free with the still complete manager failed");
+    m = lost;
+    L.reset_counts();
+  }
   std::basic_string<Ch> t1 = widen<Ch>("http://u@h:1/a/./b?q#f"), t2 = widen<Ch>("http://h/x/y"), q = widen<Ch>("a=b&c");
   typename A::Uri a, b, d;
   const Ch *ep;
